@@ -1,8 +1,9 @@
 import VlsModel.Drv.Common
-/- Line-protocol models serving property C07 (none yet). -/
+import VlsModel.Drv.Policy
+/- Line-protocol models serving property C07 (same state machine as C05, plus the close ops). -/
 namespace VlsModel.Drv.C07
 open VlsModel.Drv
 
-def models : List (String × Model) := []
+def models : List (String × Model) := [ ("mclose", Policy.model) ]
 
 end VlsModel.Drv.C07
